@@ -105,11 +105,14 @@ def execute(inst, op, results):
             return ['FOREIGN'] + exc_obs(e)[1:]
     if kind == 'compile':
         c, cg = inst.compiler(op.get('codegen', 'json'))
-        specs = op['modules']
+        specs = op.get('modules', {})
         inst.texts.clear()
         inst.texts.update(basemibs.ALL_BASE)
         for n, sp in specs.items():
             inst.texts[n] = mibgen.render(sp, specs)
+        for cname in op.get('corpus', ()):
+            mname, mtext = corpus.CORPUS_MODULES[cname]()
+            inst.texts[mname] = mtext
         for n in op.get('absent', ()):
             inst.texts.pop(n, None)
         inst.written.clear()
